@@ -284,7 +284,8 @@ CHECKS["C08"] = {
             "handle holding another wrapper's lock) on guarded, guarded_opt(on/off), shared_guarded, shared_guarded_opt(on/off), ordered_guarded, "
             "deferred_guarded x 4 mutex types. The shim's per-thread shadow lock set decides: bool(handle) == (one more lock held), released exactly "
             "once and only by the owning handle, null after unlock(), nothing held at quiescence, a further try-acquisition succeeds; disabled "
-            "mode: non-null, zero mutex operations; stress: a timed attempt returns within duration + 2 s. Non-trivial: some attempt failed (null "
+            "mode: non-null, zero mutex operations; a try / timed form never waits untimed for the lock that handles hold and never asks the mutex for "
+            "a longer time-out than the caller gave (shim counters, no wall clock). Non-trivial: some attempt failed (null "
             "handle), or disabled mode, or a solo round (try on a free lock must succeed); distinct = (program, schedule, outcome counts).",
     "assumptions": ["a moved-from handle may still test true (not forbidden by the property, not judged)", "spurious try_lock failure is judged only in single-threaded rounds"],
     "runs": [
